@@ -217,4 +217,48 @@ theorem cntV_mono (f g : (Nat → Bool) → Bool) (h : ∀ w, f w = true → g w
     have b := ih (k + 1) (upd v k true)
     omega
 
+/-- counting over the variables `k … k+m-1` a function satisfied by exactly one assignment `t` -/
+theorem cntV_single (f : (Nat → Bool) → Bool) (t : Nat → Bool) (n : Nat)
+    (hf : ∀ w, f w = true ↔ ∀ i, i < n → w i = t i) :
+    ∀ m k (v : Nat → Bool), k + m = n → (∀ i, i < k → v i = t i) → cntV f m k v = 1 := by
+  have zero : ∀ m k (v : Nat → Bool), k + m = n → (∃ i, i < k ∧ v i ≠ t i) → cntV f m k v = 0 := by
+    intro m
+    induction m with
+    | zero =>
+      intro k v hk ⟨i, hi, hne⟩
+      have : ¬ f v = true := fun h => hne ((hf v).1 h i (by omega))
+      simp [cntV, this]
+    | succ m ih =>
+      intro k v hk ⟨i, hi, hne⟩
+      have hik : i ≠ k := by omega
+      simp only [cntV]
+      rw [ih (k + 1) _ (by omega) ⟨i, by omega, by simpa [upd, hik] using hne⟩,
+        ih (k + 1) _ (by omega) ⟨i, by omega, by simpa [upd, hik] using hne⟩]
+  intro m
+  induction m with
+  | zero =>
+    intro k v hk hv
+    have : f v = true := (hf v).2 (fun i hi => hv i (by omega))
+    simp [cntV, this]
+  | succ m ih =>
+    intro k v hk hv
+    simp only [cntV]
+    have agree : ∀ b, ∀ i, i < k → upd v k b i = t i := by
+      intro b i hi
+      have : i ≠ k := by omega
+      simp [upd, this]; exact hv i hi
+    cases htk : t k
+    · rw [ih (k + 1) (upd v k false) (by omega) (by
+          intro i hi
+          by_cases hik : i = k
+          · subst hik; simp [upd, htk]
+          · exact agree false i (by omega)),
+        zero m (k + 1) (upd v k true) (by omega) ⟨k, by omega, by simp [upd, htk]⟩]
+    · rw [zero m (k + 1) (upd v k false) (by omega) ⟨k, by omega, by simp [upd, htk]⟩,
+        ih (k + 1) (upd v k true) (by omega) (by
+          intro i hi
+          by_cases hik : i = k
+          · subst hik; simp [upd, htk]
+          · exact agree true i (by omega))]
+
 end B.Count
